@@ -66,9 +66,9 @@ class C19(Prop):
             if not votes: continue
             tb = TBS[(i // 5) % 3]
             wrong = None
-            if kind != "cat" and i % 4 == 0:
-                wrong = rng.choice([k for k in KINDS[:4] if k != kind])
-            yield dict(entry="preflib_%s_to_profile" % (wrong or ("categorical" if kind == "cat" else kind)), family=kind + ("_wrongtype" if wrong else ""),
+            if i % 4 == 0:
+                wrong = rng.choice([k for k in KINDS if k != kind])
+            yield dict(entry="preflib_%s_to_profile" % {"cat": "categorical"}.get(wrong or kind, wrong or kind), family=kind + ("_wrongtype" if wrong else ""),
                        kind=kind, m=m, votes=votes, ncat=ncat, tb=tb, call=(wrong or kind), seed=i)
 
     def run(self, case):
@@ -109,7 +109,7 @@ class C19(Prop):
     def oracle(self, case, obs):
         kind = case["kind"]; m = case["m"]
         if case["call"] != kind:
-            if obs["status"] == "err" and obs["err"] == "ValueError": return None
+            if obs["status"] == "err" and obs["err"] in ("ValueError", "TypeError", "AttributeError"): return None
             return ("wrong_type_accepted", "a %s instance was accepted by the %s converter (%s)" % (kind, case["call"], obs["status"]))
         if obs["status"] != "ok":
             return ("no_result", "%s failed: %s %s %s" % (case["entry"], obs["status"], obs.get("err"), obs.get("msg")))
@@ -150,7 +150,7 @@ class C19(Prop):
         pol = TBS.index(case["tb"]) if case["kind"] in ("toc", "toi", "cat") else 1
         if obs["status"] == "ok":
             e = "(Some %s)" % cl([cl([copt(x, cz) for x in row]) for row in obs["rows"]])
-        elif obs.get("err") == "ValueError":
+        elif obs.get("err") in ("ValueError", "TypeError", "AttributeError"):
             e = "None"
         else:
             return None
